@@ -184,6 +184,15 @@ impl Scenario for C10 {
                 if rng.chance(1, 3) {
                     spec.aux = vec![1, rng.below(2 * kind.block_words() as u64 + 3)];
                     spec.seed2 = Some(gen_seed(rng, kind));
+                } else if rng.chance(1, 5) {
+                    // aux[0] = 2: the second generator is the first one written to a snapshot and read back (where
+                    // the type is serialisable), right after a history that may end in a jump: IF the two compare
+                    // equal, their futures must be identical (a field that == ignores and the snapshot drops)
+                    spec.aux = vec![2];
+                    if kind.has_jump() && rng.chance(1, 2) {
+                        let at = spec.ops.iter().position(|o| *o == Op::Fork).unwrap_or(0);
+                        spec.ops.insert(at, if rng.chance(1, 2) { Op::Jump } else { Op::LongJump });
+                    }
                 } else if rng.chance(1, 25) {
                     // a crafted linear-engine state: one state word is zero right after a jump
                     let mut tmp = Spec { ops: vec![], ..Default::default() };
@@ -417,6 +426,23 @@ impl C10 {
             sut(guard(|| dst.clone_from_dyn(src)), "clone_from")?;
             st.count("probe:clone_from_into_used_generator");
             d
+        } else if spec.variant == "clone" && spec.aux.first().copied() == Some(2) {
+            let restored = match sut(guard(|| a.snapshot(crate::gens::SnapFmt::Bincode)), "serialize")? {
+                Some(img) => sut(guard(|| crate::gens::restore(kind, crate::gens::SnapFmt::Bincode, &img)), "deserialize")?.ok(),
+                None => None,
+            };
+            match restored {
+                Some(mut r) => {
+                    st.count("probe:restored_twin");
+                    let suffix: Vec<Op> = if fork_at < spec.ops.len() { spec.ops[fork_at + 1..].to_vec() } else { vec![] };
+                    // (whether a restored generator must compare equal is C11's business; here only: IF equal ...)
+                    return match eq_checked(r.as_ref(), a.as_ref(), st)? {
+                        Some(true) => lockstep(a.as_mut(), r.as_mut(), &suffix, st, "restored", "C10/equal_but_different_future"),
+                        _ => Ok(()),
+                    };
+                }
+                None => sut(guard(|| a.boxed_clone()), "clone")?,
+            }
         } else {
             sut(guard(|| a.boxed_clone()), "clone")?
         };
